@@ -516,7 +516,7 @@ static std::string enumerate(const Args &a)
     const std::string fn = op.substr(0, op.find('.'));
     const SrcKind k = src_kind(fn);
     uint64_t lo = u64(a[4]), hi = u64(a[5]);
-    uint64_t h = 0xcbf29ce484222325ULL, n = 0;
+    uint64_t h = 0xcbf29ce484222325ULL, hs = 0xcbf29ce484222325ULL, n = 0;
     std::vector<uint64_t> us;
     Args ca = {a[2], a[3], ""};
     for (uint64_t i = lo; i < hi; ++i) {
@@ -526,11 +526,16 @@ static std::string enumerate(const Args &a)
         case K16: ca[2] = hexunits<char16_t>(us); break;
         case K32: ca[2] = hexunits<char32_t>(us); break;
         }
-        fnv_add(h, line_of(op, ca) + "\n");
+        const std::string line = line_of(op, ca);
+        fnv_add(h, line + "\n");
+        // shape = the line without the units: what C03 constrains (outcome class, size, terminator)
+        size_t sz = line.rfind(" size=");
+        fnv_add(hs, (line.compare(0, 3, "OK ") == 0 && sz != std::string::npos ? "OK" + line.substr(sz) : line) + "\n");
         ++n;
     }
-    char buf[64];
-    snprintf(buf, sizeof buf, "n=%llu fnv=%016llx", (unsigned long long)n, (unsigned long long)h);
+    char buf[96];
+    snprintf(buf, sizeof buf, "n=%llu fnv=%016llx shape=%016llx", (unsigned long long)n, (unsigned long long)h,
+             (unsigned long long)hs);
     return buf;
 }
 
